@@ -110,13 +110,24 @@ Theorem C06_exit_2_iff : forall readErr parseErr matched,
 Proof. exact exit_2_iff. Qed.
 Print Assumptions C06_exit_precedence.
 
+(* clause "exit status 2 / 2 / 1 / 0" for the aggregating commands with --csv / -o: asking for the csv
+   export changes neither the exit status nor the log lines (q = command + 8 * csv kind, Model/Input.v) *)
+Theorem C06_exit_independent_of_csv : forall fs glob gunzip probe flush i q1 q2,
+  agg_cmd (2%N, q1) = agg_cmd (2%N, q2) ->
+  co_exit (cli_model fs glob gunzip probe flush (with_mode i (2%N, q1))) =
+  co_exit (cli_model fs glob gunzip probe flush (with_mode i (2%N, q2))) /\
+  co_nlog (cli_model fs glob gunzip probe flush (with_mode i (2%N, q1))) =
+  co_nlog (cli_model fs glob gunzip probe flush (with_mode i (2%N, q2))).
+Proof. exact exit_independent_of_csv. Qed.
+Print Assumptions C06_exit_independent_of_csv.
+
 (* the exit status and the matches of the command are those of EVERY terminal state of the pipeline
    started on the sources the arguments denote (the correspondence evaluates this projection) *)
 Theorem C06_cli_projection : forall fs glob gunzip probe flush i srcs lg c nw s,
   cli_sources fs glob gunzip probe flush i = Some (srcs, lg) -> cfg_ok c -> nw >= 1 ->
   reach lineid (classify (ci_mode i)) c (init lineid srcs nw) s ->
   (forall s', ~ step lineid (classify (ci_mode i)) c s s') ->
-  Permutation (shown (ci_mode i) (consumed lineid s)) (co_lines (cli_model fs glob gunzip probe flush i)) /\
+  Permutation (shown (ci_mode i) (consumed lineid s)) (shown (ci_mode i) (seq_keys lineid (classify (ci_mode i)) (input_of srcs))) /\
   exit_code (errs lineid s) (parse_errors (ci_mode i) (consumed lineid s)) (cM lineid s)
     = co_exit (cli_model fs glob gunzip probe flush i).
 Proof. exact cli_projection. Qed.
